@@ -74,6 +74,8 @@ struct OpRec
     std::vector<TermF> termfs;
     struct Lex { int64_t pos; int line; int col; int idx; int64_t len; uint32_t seq; int verbose; int64_t end_pos; int64_t inst_calls; int64_t inst_last; };
     int own_copy_depth = 0;
+    int expected_owner = 0;          // which parser object this call was made on (0 constexpr instance, 1 run-time built instance)
+    int64_t foreign_functor_calls = 0;   // rule functors of ANOTHER parser object ran during this call
     int64_t lexer_state_clobbered = 0;
     // re-entrancy: at functor call #nest_at of this call, the NEXT op of the task is executed from inside the functor
     int64_t nest_at = -1;
@@ -143,7 +145,9 @@ void node_assign_over(const void* addr, uint32_t old_vid, bool held_value);
 void trivial_copy();                                          // a copy of the trivially destructible value type was made
 void node_lvalue_arg(uint32_t vid);
 int64_t copies_so_far();
-void own_copies(int delta);                                    // +1/-1 around a copy the functor itself asks for (not the library's)                                       // copies made during the current call (ledgered objects)                           // a functor received the value as an lvalue (cannot be moved from by a by-value parameter)
+void own_copies(int delta);
+void functor_owner(int owner);                                  // a rule functor object reports which parser object it belongs to
+void set_expected_owner(int owner);                                    // +1/-1 around a copy the functor itself asks for (not the library's)                                       // copies made during the current call (ledgered objects)                           // a functor received the value as an lvalue (cannot be moved from by a by-value parameter)
 
 // allocator control
 void set_alloc_tracking(bool on);
